@@ -1,8 +1,172 @@
 import Genshi.Wire
+import Genshi.WireCore
+import Genshi.Model.TmplImpl
+import Genshi.Model.TmplExtract
+import Genshi.Model.TmplText
 namespace Driver.C04
-open Genshi
+open Genshi Genshi.Tmpl Genshi.Sexp
 
-/-- stub: the model driver for C04 is not built yet -/
-def handle : List Sexp → Option Sexp := fun _ => none
+def atom? : Sexp → Option Atom
+  | .list [.atom "N"] => some .none
+  | .list [.atom "B", b] => do let b ← b.toBool?; pure (.bool b)
+  | .list [.atom "I", i] => do let i ← i.toInt?; pure (.int i)
+  | .list [.atom "S", .str s] => some (.str s)
+  | _ => none
+
+partial def expr? : Sexp → Option Expr
+  | .list [.atom "V", .str n] => some (.var n)
+  | .list [.atom "SV", .str n] => some (.svar n)
+  | .list (.atom "L" :: xs) => do let as ← xs.mapM atom?; pure (.lit (.list as))
+  | .list (.atom "D" :: kvs) => do
+      let ps ← kvs.mapM fun
+        | .list [.str k, a] => do let a ← atom? a; pure (k, a)
+        | _ => none
+      pure (.lit (.dict ps))
+  | .list [.atom "EQ", a, b] => do let a ← expr? a; let b ← expr? b; pure (.eq a b)
+  | .list [.atom "IX", a, b] => do let a ← expr? a; let b ← expr? b; pure (.ix a b)
+  | .list [.atom "SIX", a, b] => do let a ← expr? a; let b ← expr? b; pure (.six a b)
+  | .list [.atom "NOT", a] => do let a ← expr? a; pure (.not a)
+  | .list [.atom "LEN", a] => do let a ← expr? a; pure (.len a)
+  | s => do let a ← atom? s; pure (.lit (.atom a))
+
+def xexpr? : Sexp → Option XExpr
+  | .list [.atom "CALL", f, .list args] => do let f ← expr? f; let as ← args.mapM expr?; pure (.call f as)
+  | s => do let e ← expr? s; pure (.pure e)
+
+def optExpr? : Sexp → Option (Option Expr)
+  | .atom "NONE" => some none
+  | s => do let e ← expr? s; pure (some e)
+
+def dir? : Sexp → Option Dir
+  | .list [.atom "Def", .str f, .list ps] => do let ps ← ps.mapM Sexp.toStr?; pure (.def_ f ps)
+  | .list [.atom "When", e] => do let e ← optExpr? e; pure (.when e)
+  | .list [.atom "Otherwise"] => some .otherwise
+  | .list [.atom "For", .str v, e] => do let e ← expr? e; pure (.for_ v e)
+  | .list [.atom "If", e] => do let e ← expr? e; pure (.if_ e)
+  | .list [.atom "Choose", e] => do let e ← optExpr? e; pure (.choose e)
+  | .list [.atom "With", .list bs] => do
+      let bs ← bs.mapM fun
+        | .list [.str n, e] => do let e ← expr? e; pure (n, e)
+        | _ => none
+      pure (.with_ bs)
+  | .list [.atom "Replace", x] => do let x ← xexpr? x; pure (.replace x)
+  | .list [.atom "Content", x] => do let x ← xexpr? x; pure (.content x)
+  | .list [.atom "Attrs", e] => do let e ← expr? e; pure (.attrs e)
+  | .list [.atom "Strip", e] => do let e ← optExpr? e; pure (.strip e)
+  | _ => none
+
+partial def node? : Sexp → Option TNode
+  | .list [.atom "T", .str s] => some (.text s)
+  | .list [.atom "E", x] => do let x ← xexpr? x; pure (.expr x)
+  | .list [.atom "EL", .str tag, .list attrs, .list dirs, .list kids] => do
+      let attrs ← attrs.mapM fun
+        | .list [.str k, .str v] => some (k, v)
+        | _ => none
+      let dirs ← dirs.mapM dir?
+      let kids ← kids.mapM node?
+      pure (.elem tag attrs dirs kids)
+  | .list [.atom "DE", d, .list kids] => do
+      let d ← dir? d
+      let kids ← kids.mapM node?
+      pure (.delem d kids)
+  | _ => none
+
+def val? (s : Sexp) : Option Val := do
+  match ← expr? s with
+  | .lit v => pure v
+  | _ => none
+
+def data? : Sexp → Option Env
+  | .list xs => xs.mapM fun
+      | .list [.str n, v] => do let v ← val? v; pure (n, v)
+      | _ => none
+  | _ => none
+
+/-- which directive may be written as an element / block in which language -/
+def elemFormOk (markup : Bool) : Dir → Bool
+  | .content _ | .attrs _ | .strip _ => false
+  | .replace _ => markup
+  | _ => true
+
+partial def nodeOk (markup : Bool) : TNode → Bool
+  | .text _ | .expr _ => true
+  | .elem _ _ _ kids => markup && kids.all (nodeOk markup)
+  | .delem d kids => elemFormOk markup d && kids.all (nodeOk markup)
+
+def errName : Err → String
+  | .type => "type" | .index => "index" | .key => "key" | .undefined => "undefined"
+  | .runtime => "runtime" | .attribute => "attribute" | .value => "value"
+  | .stopiter => "genstop" | .fuel => "fuel" | .unmodelled => "unmodelled"
+
+def outRes : Except Err (List Event) → Sexp
+  | .ok evs => .list [.atom "ok", streamToSexp evs]
+  | .error e => .list [.atom "err", .atom (errName e)]
+
+/-! prepared stream on the wire (for the `compile` correspondence) -/
+
+def atomS : Atom → Sexp
+  | .none => .list [.atom "N"]
+  | .bool b => .list [.atom "B", ofBool b]
+  | .int i => .list [.atom "I", ofInt i]
+  | .str s => .list [.atom "S", .str s]
+
+partial def exprS : Expr → Sexp
+  | .var n => .list [.atom "V", .str n]
+  | .svar n => .list [.atom "SV", .str n]
+  | .lit (.atom a) => atomS a
+  | .lit (.list xs) => .list (.atom "L" :: xs.map atomS)
+  | .lit (.dict kv) => .list (.atom "D" :: kv.map fun p => .list [.str p.1, atomS p.2])
+  | .lit _ => .atom "BAD"
+  | .eq a b => .list [.atom "EQ", exprS a, exprS b]
+  | .ix a b => .list [.atom "IX", exprS a, exprS b]
+  | .six a b => .list [.atom "SIX", exprS a, exprS b]
+  | .not a => .list [.atom "NOT", exprS a]
+  | .len a => .list [.atom "LEN", exprS a]
+
+def xexprS : XExpr → Sexp
+  | .pure e => exprS e
+  | .call f args => .list [.atom "CALL", exprS f, .list (args.map exprS)]
+
+def optS : Option Expr → Sexp
+  | none => .atom "NONE"
+  | some e => exprS e
+
+def dirS : Dir → Sexp
+  | .def_ f ps => .list [.atom "Def", .str f, .list (ps.map .str)]
+  | .when e => .list [.atom "When", optS e]
+  | .otherwise => .list [.atom "Otherwise"]
+  | .for_ v e => .list [.atom "For", .str v, exprS e]
+  | .if_ e => .list [.atom "If", exprS e]
+  | .choose e => .list [.atom "Choose", optS e]
+  | .with_ bs => .list [.atom "With", .list (bs.map fun p => .list [.str p.1, exprS p.2])]
+  | .replace x => .list [.atom "Replace", xexprS x]
+  | .content x => .list [.atom "Content", xexprS x]
+  | .attrs e => .list [.atom "Attrs", exprS e]
+  | .strip e => .list [.atom "Strip", optS e]
+
+partial def cevS : CEv → Sexp
+  | .start t a => .list [.atom "ST", .str t, .list (a.map fun p => .list [.str p.1, .str p.2])]
+  | .end_ t => .list [.atom "EN", .str t]
+  | .text s => .list [.atom "TX", .str s]
+  | .xexpr x => .list [.atom "EX", xexprS x]
+  | .sub ds body => .list [.atom "SUB", .list (ds.map dirS), .list (body.map cevS)]
+
+def handle : List Sexp → Option Sexp
+  | [.atom verb, .atom lang, fuel, .list nodes, data] => do
+      let fuel ← fuel.toNat?
+      let nodes ← nodes.mapM node?
+      let data ← data? data
+      let markup := lang == "markup"
+      if !(nodes.all (nodeOk markup)) then pure (.atom "unmodelled") else
+      match verb with
+      | "doc" => pure (outRes (docRender fuel nodes data))
+      | "impl" => pure (outRes (implRender fuel nodes data))
+      | "compile" => pure (.list ((compileNodes nodes).map cevS))
+      | "compileflat" =>
+          -- the construction-time pipeline as the code runs it, per template language
+          if markup then pure (.list ((compileFlat nodes).map cevS))
+          else pure (.list ((compileText nodes).map cevS))
+      | _ => none
+  | _ => none
 
 end Driver.C04
